@@ -72,8 +72,8 @@ class Sweep:
         S.dom.threads = threads
         n_reg0 = len(S.dom.regions)
         n_oob0 = len(S.dom.oob)
-        self.obj = opsdom.build_without_body(prog, S.dom, cls, base, [Cell(S.grid), Cell(S.cache(*flags)), Cell(S.geom), Cell(S.coef), S.dirbc, threads])
-        S.it.call_function(prog.fn(cls + "::buildAscMatrices"), self.obj, [])
+        # the full constructor: base-class initialisers, buildAscMatrices(), and the (summarised) factorisation of the inner circle
+        self.obj = opsdom.operator(prog, S.dom, cls, S.grid, S.cache(*flags), S.geom, S.coef, S.dirbc, threads)
         self.build_regions = S.dom.regions[n_reg0:]
         self.extrapolated = extrapolated
         self.Asc, self.asc_problems, self.line_kind = self.read_asc()
@@ -119,6 +119,15 @@ class Sweep:
             m = o.f["inner_boundary_circle_matrix_"].get()
             T, p_ = opsdom.csr_table(m)
             probs += ["inner circle matrix: " + x for x in p_]
+            lu = o.f["inner_boundary_lu_solver_"].get() if "inner_boundary_lu_solver_" in o.f else None
+            ft = lu.f["__factorised_table"].get() if lu is not None and hasattr(lu, "f") and "__factorised_table" in lu.f else None
+            if ft is None:
+                probs.append("the constructor does not factorise the inner circle matrix (inner_boundary_lu_solver_ is not built from a matrix)")
+            else:
+                dd = [(r, c) for r in set(T) | set(ft[1]) for c in set(T.get(r, {})) | set(ft[1].get(r, {}))
+                      if not dag.equal(dag.lift(T.get(r, {}).get(c, dag.ZERO)), dag.lift(ft[1].get(r, {}).get(c, dag.ZERO)))]
+                if dd:
+                    probs.append("the inner circle LU was factorised (at %s) from a matrix that differs from inner_boundary_circle_matrix_ as assembled, first at entry %s: factorisation before the assembly finished, or of another matrix" % (ft[3], dd[0]))
             for it_, row in T.items():
                 for jt, v in row.items():
                     put(S.index(0, it_), S.index(0, jt), dag.lift(v))
